@@ -237,7 +237,7 @@ def conditions(tier, seed):
                 continue
             out.append(Cond(f"E2 root rule needs a delimiter[delims={dl},line prefixes={LINE_PREFIXES[line]}]", "smt_root", kind="smt", mode="A",
                             param={"delims": dl, "line": line}, replay="smt_replay", timeout=120, bounds="all strings <= 30 chars"))
-    mp = 4 if th else 3
+    mp = 3   # thorough: every first piece is fixed in turn, so sources of up to 4 pieces are covered with 3 free positions
     for nl in range(3):
         for ktn in (False, True):
             firsts = [""] + (CH if th else [CH[(seed + nl * 2 + ktn) % len(CH)]])
